@@ -12,7 +12,7 @@ from harness.lib.core import REPO, VERIF, source_sha
 from harness.props import c15_vsched as vs
 
 LEVEL = 'proof'
-MAXSTEPS = 400
+MAXSTEPS = 900
 
 TAGS = {
     1: 'a step the real code took is not enabled in the model',
@@ -25,7 +25,7 @@ TAGS = {
     8: 'bodies the threads are inside differ from the model',
     9: 'an unexpected exception escaped from the lock code',
     11: 'a thread is inside an exclusive body while another thread holds the lock',
-    12: 'a shared request was refused although no other thread holds exclusively',
+    12: 'a request was refused / kept waiting although no conflicting holder exists (thread level: shared vs exclusive body; path level: kernel lock request vs holders of other processes)',
     13: "a thread's hold changed during another thread's step",
     14: 'a non-blocking request waited, or entered in spite of a conflicting holder',
     15: 'a non-reentrant recursive request entered instead of raising',
@@ -46,6 +46,8 @@ def gen_req(rng, depth, budget):
     req = {'sh': rng.random() < 0.6, 'b': rng.random() < 0.65, 'r': rng.random() < 0.6}
     if rng.random() < 0.04:
         req['boom'] = True
+    if rng.random() < 0.5:
+        req['sp'] = rng.randrange(4)       # path level only: another spelling of the same file
     budget[0] -= 1
     body = []
     while budget[0] > 0 and depth < 3 and rng.random() < 0.45:
@@ -87,11 +89,14 @@ class Machine:
     """One module instance of lock.py (= one simulated process) with virtual primitives."""
     _count = 0
 
-    def __init__(self, path=None):
+    def __init__(self, path=None, holder=None, pid=None):
         Machine._count += 1
         self.path = path or vs.lock_source(REPO)
-        self.holder = vs.Holder()
+        self.holder = holder or vs.Holder()
+        self.pid = pid
         self.mod = vs.load_lock_module(self.holder, f'pv_c15_lock_{Machine._count}', self.path)
+        if pid is not None:
+            vs.virtualise_os(self.mod, pid)
 
     def exc_name(self, e):
         m = self.mod
@@ -110,6 +115,35 @@ def req_frame(q):
 
 def body_frames(reqs):
     return ['ShBody' if q['sh'] else 'ExBody' for q in reqs]
+
+
+def pick(recs, S, schedule, pos, last, n, eager):
+    """Next thread to grant: the one the schedule names if it can run, else the next runnable one in cyclic order.
+    With eager stutter (used by the exhaustive enumeration) a thread parked right after a release runs first."""
+    alive = [r for r in recs if not r['done']]
+    if not alive:
+        return None, 0, False
+    runnable = [r for r in alive if S.runnable(r)]
+    if not runnable:
+        return None, 1, False
+    if eager:
+        st = [r for r in runnable if r['want'][0] == 'released']
+        if st:
+            return st[0], None, True
+    want = schedule[pos] % n if pos < len(schedule) else (last + 1) % n
+    return min(runnable, key=lambda r: (r['id'] - want) % n), None, False
+
+
+def merge_stutter_events(steps):
+    """What a thread logs while it runs the code following a release (its `stutter` step) belongs to the atomic
+    section before it: append those events to the thread's previous step."""
+    lastof = {}
+    for st in steps:
+        if st['stutter'] and st['t'] in lastof:
+            lastof[st['t']]['ev'] += st['ev']
+            st['ev'] = []
+        elif not st['stutter']:
+            lastof[st['t']] = st
 
 
 def run_thread_level(spec, machine):
@@ -155,31 +189,41 @@ def run_thread_level(spec, machine):
     recs = [S.spawn(lambda rec: run_items(rec, rec['prog']), prog=prog, bodies=[], req=None, phase='idle')
             for prog in spec['threads']]
     n = len(recs)
-    schedule = spec.get('schedule', [])
+    schedule = spec.get('schedule') or []
+    eager = bool(spec.get('eager_stutter'))
     steps, final, pos, last = [], None, 0, n - 1
     while True:
-        alive = [r for r in recs if not r['done']]
-        if not alive:
-            final = 0
-            break
-        runnable = [r for r in alive if S.runnable(r)]
-        if not runnable:
-            final = 1
-            break
         if len(steps) >= MAXSTEPS:
             final = 2
             break
-        want = schedule[pos] % n if pos < len(schedule) else (last + 1) % n
-        pos += 1
-        rec = min(runnable, key=lambda r: (r['id'] - want) % n)
+        rec, final, forced = pick(recs, S, schedule, pos, last, n, eager)
+        if rec is None:
+            break
+        if not forced:
+            pos += 1
         last = rec['id']
-        push = rec['want'][0] == 'idle'
+        kind = rec['want'][0]
+        push, stutter = kind == 'idle', kind == 'released'
         act = f"(APush {req_frame(rec['req'])})" if push else 'AGo'
-        leaving_sh = None
         ev = S.grant(rec)
-        kinds = {e[0]: e for e in ev}
-        if push:
-            obs = 'OPush' if not ev else 'CRASH'
+        leave = (not ev and not rec['done'] and rec['want'][0] == 'acquire' and rec['phase'] == 'exit')
+        steps.append({
+            't': rec['id'], 'act': act, 'push': push, 'stutter': stutter, 'forced': forced, 'ev': list(ev), 'leave': leave,
+            'acq': sorted((k, v) for k, v in L._acquired_by.items()),
+            'owner': cond.lock.owner, 'depth': cond.lock.depth,
+            'waiting': sorted(cond.waiters), 'notified': sorted(cond.notified),
+            'runnable': [r['id'] for r in recs if not r['done'] and S.runnable(r)],
+            'done': [r['id'] for r in recs if r['done']],
+            'released': [r['id'] for r in recs if not r['done'] and r['want'][0] == 'released'],
+            'bodies': [(r['id'], [q['sh'] for q in r['bodies']]) for r in recs if r['bodies']],
+        })
+    merge_stutter_events(steps)
+    for st in steps:
+        kinds = {e[0]: e for e in st['ev']}
+        if st['stutter']:
+            obs = 'OPush' if not st['ev'] else 'CRASH'      # placeholder: not compared on stutter steps
+        elif st['push']:
+            obs = 'OPush' if not st['ev'] else 'CRASH'
         elif 'enter' in kinds:
             obs = 'OEnterSh' if kinds['enter'][1] else 'OEnterEx'
         elif 'raise' in kinds:
@@ -188,25 +232,17 @@ def run_thread_level(spec, machine):
             obs = f"(OExitSh {ct.boolean('notify' in kinds)})" if kinds['exitdone'][1] else 'OExitEx'
         elif 'wait' in kinds:
             obs = 'OWait'
-        elif not ev and not rec['done'] and rec['want'][0] == 'acquire' and rec['phase'] == 'exit':
+        elif not st['ev'] and st['leave']:
             obs = 'OLeave'
         else:
             obs = 'CRASH'
-        steps.append({
-            't': rec['id'], 'act': act, 'obs': obs,
-            'acq': sorted((k, v) for k, v in L._acquired_by.items()),
-            'owner': cond.lock.owner, 'depth': cond.lock.depth,
-            'waiting': sorted(cond.waiters), 'notified': sorted(cond.notified),
-            'runnable': [r['id'] for r in recs if not r['done'] and S.runnable(r)],
-            'done': [r['id'] for r in recs if r['done']],
-            'bodies': [(r['id'], [q['sh'] for q in r['bodies']]) for r in recs if r['bodies']],
-        })
+        st['obs'] = obs
     parked = []
     for r in recs:
         if r['done']:
             continue
         w = r['want'][0]
-        if w in ('idle', 'body'):
+        if w in ('idle', 'body', 'released'):
             fr = body_frames(r['bodies'])
         elif w == 'acquire':
             fr = ([req_frame(r['req'])] + body_frames(r['bodies'])) if r['phase'] == 'entry' \
@@ -217,7 +253,7 @@ def run_thread_level(spec, machine):
     crashes = [r['crash'] for r in recs if r['crash']] + ['bad-observation' for s in steps if s['obs'] == 'CRASH']
     S.abort_all()
     return {'n': n, 'steps': steps, 'final': final, 'parked': parked, 'crashes': crashes,
-            'effective': [s['t'] for s in steps]}
+            'effective': [s['t'] for s in steps if not s['forced']]}
 
 
 def natl(xs):
@@ -228,15 +264,259 @@ def thread_case_term(o):
     steps = []
     for s in o['steps']:
         obs = s['obs'] if s['obs'] != 'CRASH' else 'OPush'
+        if any(not (0 <= v < 4000) for _, v in s['acq']) or not (0 <= s['depth'] < 4000):
+            # a corrupted counter cannot be printed as a nat: report it as a crash of the lock code
+            o['crashes'].append('counter out of range: ' + repr(s['acq']))
+            s = dict(s, acq=[(k, min(max(v, 0), 3999)) for k, v in s['acq']], depth=min(max(s['depth'], 0), 3999))
         steps.append(
             f"(mkStep {ct.nat(s['t'])} {s['act']} {obs} "
             + ct.lst([ct.pair(ct.nat(k), ct.nat(v)) for k, v in s['acq']]) + ' '
             + ct.opt(None if s['owner'] is None else ct.nat(s['owner'])) + f" {ct.nat(s['depth'])} "
             + natl(s['waiting']) + ' ' + natl(s['notified']) + ' ' + natl(s['runnable']) + ' ' + natl(s['done']) + ' '
-            + ct.lst([ct.pair(ct.nat(t), ct.lst([ct.boolean(b) for b in bs])) for t, bs in s['bodies']]) + ')')
+            + ct.lst([ct.pair(ct.nat(t), ct.lst([ct.boolean(b) for b in bs])) for t, bs in s['bodies']])
+            + f" {ct.boolean(s['stutter'])} " + natl(s['released']) + ')')
     parked = ct.lst([ct.pair(ct.nat(t), ct.lst(fr)) for t, fr in o['parked']])
     return (f"(mkCase {ct.nat(o['n'])} " + ct.lst(steps) + f" {ct.nat(o['final'])} " + parked
             + f" {ct.nat(len(o['crashes']))})")
+
+
+# ------------------------------------------------------------------ path level: the whole of path_lock, several processes
+VPATHS = ['/pv-virtual/dir/../lockfile', '/pv-virtual/lockfile', '/pv-virtual//lockfile', '/pv-virtual/./lockfile']
+VPATH = VPATHS[0]                           # spellings of ONE file: normalised by path_lock; never touched (os is virtual)
+PCORR = (31, 32, 33, 34, 35, 36, 37, 38)
+PTAGS = {
+    31: 'a step the real code took is not enabled in the path model',
+    32: 'observable effect of a step differs from the path model',
+    33: 'pool reference counts differ from the path model',
+    34: 'ShareableThreadLock state differs from the path model',
+    35: 'ShareableProcessLock state (mutex, _shared_by, _exclusively_held_by) differs from the path model',
+    36: 'kernel lock table differs from the path model',
+    37: 'set of runnable threads differs from the path model',
+    38: 'bodies the threads are inside differ from the path model',
+    17: 'a thread is inside a body while its process does not hold the fcntl lock in the required mode',
+    18: 'descriptor bookkeeping wrong: the path has no single open descriptor while referenced, or path_lock yielded another fd',
+}
+TAGS.update(PTAGS)
+CORR = CORR + PCORR
+ORACLE = ORACLE + (17, 18)
+
+
+class World:
+    """k simulated processes = k module instances of lock.py sharing one scheduler holder and one kernel."""
+
+    def __init__(self, nprocs, path=None):
+        self.holder = vs.Holder()
+        self.machines = [Machine(path, self.holder, pid) for pid in range(nprocs)]
+        self.dirty = False
+
+
+_WORLDS = {}
+
+
+def get_world(nprocs, path=None):
+    key = (nprocs, str(path))
+    w = _WORLDS.get(key)
+    if w is None or w.dirty:
+        w = World(nprocs, path)
+        _WORLDS[key] = w
+    return w
+
+
+def gen_path_spec(rng, maxprocs=2):
+    nprocs = rng.choice([1, 1, 2, 2, 2][:1 + 2 * (maxprocs - 1) + 1]) if maxprocs < 2 else rng.choice([1, 2, 2, 2])
+    n = rng.choice([1, 2, 2, 3, 3])
+    n = max(n, nprocs)
+    pof = [i % nprocs for i in range(n)]
+    rng.shuffle(pof)
+    if len(set(pof)) < nprocs:
+        pof = [i % nprocs for i in range(n)]
+    return {'level': 'path', 'pof': pof, 'threads': [gen_program(rng, 3 if n < 3 else 2) for _ in range(n)],
+            'schedule': gen_schedule(rng, n, rng.choice([0, 10, 30, 60]))}
+
+
+def run_path_level(spec, path=None):
+    pof = spec['pof']
+    nprocs = max(pof) + 1
+    world = get_world(nprocs, path)
+    S = vs.Sched()
+    world.holder.S = S
+    kernel = vs.VKernel(S)
+    world.holder.kernel = kernel
+    for m in world.machines:
+        if not vs.reset_pools(m.mod):
+            raise RuntimeError('pools of a fresh world are not empty')
+    world.dirty = True          # until this run ends with everything finished
+    key = vs._real_os.path.normpath(VPATH)
+
+    def run_items(rec, items):
+        m = rec['machine']
+        mod = m.mod
+        errs = (mod.AcquiringLockWouldBlockError, mod.RecursiveDeadlockError)
+        for req in items:
+            rec['req'] = req
+            S.yield_point(('idle',))
+            entered = False
+            try:
+                with mod.path_lock(VPATHS[req.get('sp', 0) % len(VPATHS)], shared=req['sh'], blocking=req['b'],
+                                   reentrant=req['r']) as fd:
+                    entered = True
+                    rec['bodies'].insert(0, req)       # "inside the body": from here ...
+                    rec['holding'].insert(0, req)
+                    S.events.append(('enter', req['sh'], fd))
+                    run_items(rec, req.get('body', []))
+                    rec['req'] = req
+                    S.yield_point(('body',))
+                    rec['bodies'].pop(0)               # ... to the moment the program leaves the with block
+                    if req.get('boom'):
+                        raise vs.Boom()
+                rec['holding'].pop(0)
+                S.events.append(('exitdone', req['sh']))
+            except vs.Boom:
+                if not entered or not req.get('boom'):
+                    raise
+                rec['holding'].pop(0)
+                S.events.append(('exitdone', req['sh']))
+            except errs as e:
+                if entered:
+                    raise
+                S.events.append(('raise', m.exc_name(e)))
+
+    recs = [S.spawn(lambda rec: run_items(rec, rec['prog']), prog=prog, bodies=[], holding=[], req=None,
+                    machine=world.machines[pof[i]]) for i, prog in enumerate(spec['threads'])]
+    n = len(recs)
+
+    def proc_obs(m):
+        mod = m.mod
+        tle = mod._thread_level_lock_ref._refs.get(key)
+        fde = mod._fd_ref._refs.get(key)
+        bad = []
+        if len(mod._thread_level_lock_ref._refs) > (1 if tle else 0) or len(mod._fd_ref._refs) > (1 if fde else 0):
+            bad.append('unexpected pool keys')
+        plrefs = mod._process_level_lock_ref._refs
+        ple = plrefs.get(fde[0]) if fde else None
+        if len(plrefs) > (1 if ple else 0):
+            bad.append('process-lock pool entry under another fd')
+        o = {'tlref': tle[1] if tle else 0, 'fdref': fde[1] if fde else 0, 'plref': ple[1] if ple else 0,
+             'tl': None, 'pl': None, 'kern': kernel.locks.get((m.pid, key)),
+             'nfds': len(kernel.fds.get(m.pid, {})), 'fd': fde[0] if fde else None, 'bad': bad}
+        if set(f for (q, f) in kernel.locks if q == m.pid) - {key}:
+            bad.append('kernel lock on another file')
+        if tle:
+            L = tle[0]
+            c = L._condition
+            o['tl'] = {'acq': sorted(L._acquired_by.items()), 'owner': c.lock.owner, 'depth': c.lock.depth,
+                       'waiting': sorted(c.waiters), 'notified': sorted(c.notified)}
+        if ple:
+            Pl = ple[0]
+            o['pl'] = {'mutex': Pl._lock.owner, 'sh': sorted(Pl._shared_by.items()), 'ex': sorted(Pl._exclusively_held_by.items())}
+        return o
+
+    schedule = spec.get('schedule') or []
+    eager = bool(spec.get('eager_stutter'))
+    steps, final, pos, last = [], None, 0, n - 1
+    while True:
+        if len(steps) >= MAXSTEPS:
+            final = 2
+            break
+        rec, final, forced = pick(recs, S, schedule, pos, last, n, eager)
+        if rec is None:
+            break
+        if not forced:
+            pos += 1
+        last = rec['id']
+        kind = rec['want'][0]
+        push, stutter = kind == 'idle', kind == 'released'
+        q = rec['req']
+        act = f"(PPush {ct.boolean(q['sh'])} {ct.boolean(q['b'])} {ct.boolean(q['r'])})" if push else 'PGo'
+        ev = S.grant(rec)
+        pobs = [proc_obs(m) for m in world.machines]
+        fdbad = any(o['bad'] for o in pobs)
+        for e in ev:
+            if e[0] == 'enter' and e[2] != pobs[pof[rec['id']]]['fd']:
+                fdbad = True
+        failed = [e[1] for e in ev if e[0] == 'lockf-fail']
+        steps.append({
+            't': rec['id'], 'act': act, 'push': push, 'stutter': stutter, 'forced': forced,
+            'ev': [e for e in ev if e[0] in ('enter', 'raise', 'exitdone', 'wait')], 'procs': pobs, 'fdbad': fdbad,
+            'runnable': [r['id'] for r in recs if not r['done'] and S.runnable(r)],
+            'done': [r['id'] for r in recs if r['done']],
+            'released': [r['id'] for r in recs if not r['done'] and r['want'][0] == 'released'],
+            'bodies': [(r['id'], [b['sh'] for b in r['bodies']]) for r in recs if r['bodies']],
+            'holding': [(r['id'], [b['sh'] for b in r['holding']]) for r in recs if r['holding']],
+            'lockf': [(r['id'], r['want'][4]) for r in recs if not r['done'] and r['want'][0] == 'lockf'],
+            'lockf_failed': failed[0] if failed else None,
+        })
+    merge_stutter_events(steps)
+    for st in steps:
+        kinds = {e[0]: e for e in st['ev']}
+        if st['stutter'] or st['push']:
+            obs = ('POStep' if st['stutter'] else 'POPush') if not st['ev'] else 'CRASH'
+        elif 'enter' in kinds:
+            obs = 'POEnter'
+        elif 'raise' in kinds:
+            obs = {'WouldBlock': '(PORaise PThreadWouldBlock)', 'Recursive': '(PORaise PRecursive)',
+                   'ProcWouldBlock': '(PORaise PProcWouldBlock)'}.get(kinds['raise'][1], 'CRASH')
+        elif 'exitdone' in kinds:
+            obs = 'POExit'
+        elif 'wait' in kinds:
+            obs = 'POWait'
+        else:
+            obs = 'POStep'
+        st['obs'] = obs
+    crashes = [r['crash'] for r in recs if r['crash']] + ['bad-observation' for s in steps if s['obs'] == 'CRASH']
+    blocked = [(r['id'], r['want'][0]) for r in recs if not r['done']]
+    S.abort_all()
+    if final == 0 and not crashes and all(vs.reset_pools(m.mod) for m in world.machines):
+        world.dirty = False
+    return {'n': n, 'pof': pof, 'steps': steps, 'final': final, 'crashes': crashes, 'blocked': blocked,
+            'effective': [s['t'] for s in steps if not s['forced']]}
+
+
+def items_term(items):
+    return ct.lst([ct.pair(ct.nat(k), ct.nat(v)) for k, v in items])
+
+
+def kmode(k):
+    return {None: 'KNone', 'SH': 'KSh', 'EX': 'KEx'}[k]
+
+
+def path_case_term(o):
+    def bad_nat(v):
+        return not (isinstance(v, int) and 0 <= v < 4000)
+    steps = []
+    for s in o['steps']:
+        obs = s['obs'] if s['obs'] != 'CRASH' else 'POStep'
+        ps = []
+        for po in s['procs']:
+            vals = [po['tlref'], po['fdref'], po['plref'], po['nfds']]
+            if po['tl']:
+                vals += [v for _, v in po['tl']['acq']] + [po['tl']['depth']]
+            if po['pl']:
+                vals += [v for _, v in po['pl']['sh']] + [v for _, v in po['pl']['ex']]
+            if any(bad_nat(v) for v in vals):
+                o['crashes'].append('counter out of range')
+                clamp = lambda v: min(max(v, 0), 3999)
+                po = dict(po, tlref=clamp(po['tlref']), fdref=clamp(po['fdref']), plref=clamp(po['plref']), nfds=clamp(po['nfds']))
+                if po['tl']:
+                    po['tl'] = dict(po['tl'], acq=[(k, clamp(v)) for k, v in po['tl']['acq']], depth=clamp(po['tl']['depth']))
+                if po['pl']:
+                    po['pl'] = dict(po['pl'], sh=[(k, clamp(v)) for k, v in po['pl']['sh']], ex=[(k, clamp(v)) for k, v in po['pl']['ex']])
+            tl = 'None' if not po['tl'] else (
+                "(Some (mkTL " + items_term(po['tl']['acq']) + ' ' + ct.opt(None if po['tl']['owner'] is None else ct.nat(po['tl']['owner']))
+                + f" {ct.nat(po['tl']['depth'])} " + natl(po['tl']['waiting']) + ' ' + natl(po['tl']['notified']) + '))')
+            pl = 'None' if not po['pl'] else (
+                "(Some (mkPL " + ct.opt(None if po['pl']['mutex'] is None else ct.nat(po['pl']['mutex'])) + ' '
+                + items_term(po['pl']['sh']) + ' ' + items_term(po['pl']['ex']) + '))')
+            ps.append(f"(mkPO {ct.nat(po['tlref'])} {ct.nat(po['fdref'])} {ct.nat(po['plref'])} {tl} {pl} {kmode(po['kern'])} {ct.nat(po['nfds'])})")
+        steps.append(
+            f"(mkPStep {ct.nat(s['t'])} {s['act']} {obs} " + ct.lst(ps) + ' ' + natl(s['runnable']) + ' ' + natl(s['done']) + ' '
+            + ct.lst([ct.pair(ct.nat(t), ct.lst([ct.boolean(b) for b in bs])) for t, bs in s['bodies']])
+            + f" {ct.boolean(s['fdbad'])} {ct.boolean(s['stutter'])} " + natl(s['released']) + ' '
+            + ct.lst([ct.pair(ct.nat(t), ct.lst([ct.boolean(b) for b in bs])) for t, bs in s['holding']]) + ' '
+            + ct.lst([ct.pair(ct.nat(t), kmode(m)) for t, m in s['lockf']]) + ' '
+            + ct.opt(None if s['lockf_failed'] is None else kmode(s['lockf_failed'])) + ')')
+    return (f"(mkPCase {ct.nat(o['n'])} " + natl(o['pof']) + ' ' + ct.lst(steps) + f" {ct.nat(o['final'])} "
+            + natl([t for t, w in o['blocked'] if w == 'wait']) + f" {ct.nat(len(o['crashes']))})")
 
 
 # ------------------------------------------------------------------ classification
@@ -245,6 +525,12 @@ def classify(ctx, spec, tags, obs):
     corr = sorted(t for t in tags if t in CORR)
     oracle = sorted(t for t in tags if t in ORACLE)
     status = 'ok'
+    if 201 in tags and not oracle:
+        # guard-false input on which the implementation meets the specification: accepted even if the faithful
+        # model (which contains the defect) behaves differently -- repairing a known defect is not an alarm
+        if corr:
+            ctx.coverage['guard_false_spec_ok_model_differs'] = ctx.coverage.get('guard_false_spec_ok_model_differs', 0) + 1
+        return 'ok'
     for t in oracle:
         fid = EXCUSED.get(t)
         if fid and not corr and 201 in tags and ctx.open_finding(fid):
@@ -264,29 +550,126 @@ def classify(ctx, spec, tags, obs):
     return status
 
 
-IMPORTS = 'C15.Model C15.Check'
+IMPORTS = 'C15.Model C15.Check C15.PathModel C15.PathCheck'
+_TM = {}
 
 
-def run_specs(ctx, specs, label, machine=None, quiet=False):
-    machine = machine or Machine()
-    terms, obss = [], []
-    for spec in specs:
-        o = run_thread_level(spec, machine)
-        obss.append(o)
-        terms.append(thread_case_term(o))
-    verdicts = ctx.run_cases(label, IMPORTS, 'case', terms, 'verdict', shard=100)
+def thread_machine(src):
+    k = str(src)
+    if k not in _TM:
+        _TM[k] = Machine(src)
+    return _TM[k]
+
+
+def summarize(o):
+    kinds = {}
+    for st in o['steps']:
+        k = st['obs'].strip('()')
+        kinds[k] = kinds.get(k, 0) + 1
+    return {'n': o['n'], 'nsteps': len(o['steps']), 'final': o['final'], 'effective': o['effective'],
+            'crashes': o['crashes'], 'kinds': kinds}
+
+
+def observe(spec, src=None):
+    """Run one spec on the real code; returns (Gallina case term, summary)."""
+    if spec.get('level', 'thread') == 'thread':
+        o = run_thread_level(spec, thread_machine(src))
+        return thread_case_term(o), summarize(o)
+    o = run_path_level(spec, src)
+    return path_case_term(o), summarize(o)
+
+
+def explore(base, src=None, limit=20000):
+    """All maximal schedules of the programs of `base` (thread level), by stateless depth-first search: a prefix is
+    re-executed from scratch and every alternative runnable thread at every later step starts a new prefix.
+    The step that follows a release (stutter) is taken immediately (`eager_stutter`): the random and contention
+    schedules interleave those steps freely, the enumeration does not branch on them."""
+    base = dict(base, eager_stutter=True)
+    out, stack = [], [[]]
+    n = len(base['threads'])
+    while stack and len(out) < limit:
+        prefix = stack.pop()
+        spec = dict(base, schedule=prefix)
+        o = run_thread_level(spec, thread_machine(src))
+        eff = o['effective']
+        assert eff[:len(prefix)] == prefix, (prefix, eff)
+        before, prev = [], list(range(n))
+        for st in o['steps']:
+            if not st['forced']:
+                before.append(prev)
+            prev = st['runnable']
+        for i in range(len(prefix), len(eff)):
+            for alt in before[i]:
+                if alt != eff[i]:
+                    stack.append(eff[:i] + [alt])
+        out.append((dict(base, schedule=eff), thread_case_term(o), summarize(o)))
+    return out, not stack
+
+
+def _work(task):
+    kind, payload, src = task
+    if kind == 'run':
+        return [(sp,) + observe(sp, src) for sp in payload]
+    res, complete = explore(payload, src)
+    if not complete:
+        res.append((dict(payload, schedule=None), None, {'incomplete': True}))
+    return res
+
+
+def observe_tasks(tasks, jobs):
+    if jobs <= 1 or len(tasks) <= 1:
+        outs = [_work(t) for t in tasks]
+    else:
+        import multiprocessing as mp
+        with mp.get_context('fork').Pool(jobs) as pool:
+            outs = pool.map(_work, tasks, chunksize=1)
+    return [x for o in outs for x in o]
+
+
+def judge(ctx, items, label, quiet=False):
+    """items: (spec, term, summary).  Coq judges the terms; classification; returns verdicts."""
+    idx = {'thread': [], 'path': []}
+    for k, (sp, term, sm) in enumerate(items):
+        idx[sp.get('level', 'thread')].append(k)
+    verdicts = [None] * len(items)
+    if idx['thread']:
+        r = ctx.run_cases(label + '-t', IMPORTS, 'case', [items[k][1] for k in idx['thread']], 'verdict', shard=100)
+        for k, v in zip(idx['thread'], r):
+            verdicts[k] = v
+    if idx['path']:
+        r = ctx.run_cases(label + '-p', IMPORTS, 'pcase', [items[k][1] for k in idx['path']], 'pverdict', shard=40)
+        for k, v in zip(idx['path'], r):
+            verdicts[k] = v
+    # the generated case files are large (GBs in the thorough tier): drop them once Coq has judged them
+    import shutil
+    for sub in (label + '-t', label + '-p'):
+        shutil.rmtree(ctx.rundir / sub, ignore_errors=True)
     stats = {'ok': 0, 'known': 0, 'violation': 0, 'broken': 0}
     if not quiet:
-        for spec, tags, o in zip(specs, verdicts, obss):
-            stats[classify(ctx, spec, tags, o)] += 1
-    return verdicts, obss, stats
+        for (sp, term, sm), tags in zip(items, verdicts):
+            stats[classify(ctx, sp, tags, sm)] += 1
+    return verdicts, stats
 
 
-def finding_probes(ctx, machine):
+def run_specs(ctx, specs, label, machine=None, quiet=False, jobs=1):
+    """Runs the specs on the real code (`machine`: a Machine or a path to a lock.py; None = /repo), has Coq judge
+    them, classifies unless quiet.  Returns (verdicts, summaries, stats)."""
+    src = machine.path if isinstance(machine, Machine) else machine
+    if jobs > 1 and len(specs) >= 200:
+        k = max(1, len(specs) // (jobs * 4))
+        tasks = [('run', specs[i:i + k], src) for i in range(0, len(specs), k)]
+    else:
+        tasks = [('run', specs, src)]
+    items = observe_tasks(tasks, jobs)
+    verdicts, stats = judge(ctx, items, label, quiet)
+    return verdicts, [sm for _, _, sm in items], stats
+
+
+def finding_probes(ctx):
     for f in ctx.findings:
         if f.get('status') != 'open':
             continue
-        verdicts, obss, _ = run_specs(ctx, [f['witness']], 'finding-' + f['id'], machine, quiet=True)
+        verdicts, obss, _ = run_specs(ctx, [f['witness']], 'finding-' + f['id'], quiet=True)
         tags = set(verdicts[0])
         if f['expect_tag'] in tags and not (tags & set(CORR)):
             ctx.known(f['id'])
@@ -294,53 +677,164 @@ def finding_probes(ctx, machine):
             ctx.notes.append(f"finding_not_reproduced {f['id']} (tags {sorted(tags)})")
 
 
+# ------------------------------------------------------------------ targeted generators
+def gen_contention_spec(rng, level='thread'):
+    """Several requesters queue up behind holders: waiters, several notified at once, late arrivals between a
+    notification and the wake-up.  No thread upgrades (guard true) unless `upgrade` is drawn."""
+    n = rng.choice([3, 3, 4])
+    threads = []
+    for i in range(n):
+        role = rng.choice(['holder', 'waiter', 'waiter', 'late'])
+        if role == 'holder':
+            body = [{'sh': True, 'b': True, 'r': True}] if rng.random() < 0.3 else []
+            prog = [{'sh': True, 'b': True, 'r': rng.random() < 0.7, **({'body': body} if body else {})}]
+        elif role == 'waiter':
+            prog = [{'sh': False, 'b': True, 'r': rng.random() < 0.5}]
+            if rng.random() < 0.3:
+                prog.append({'sh': rng.random() < 0.5, 'b': True, 'r': False})
+        else:
+            prog = [{'sh': True, 'b': rng.random() < 0.8, 'r': False}, {'sh': rng.random() < 0.5, 'b': rng.random() < 0.5, 'r': False}]
+        threads.append(prog)
+    sched = []
+    for _ in range(rng.choice([6, 10, 16])):
+        t = rng.randrange(n)
+        sched += [t] * rng.choice([1, 2, 2, 3, 4, 6])
+    spec = {'level': level, 'threads': threads, 'schedule': sched}
+    if level == 'path' and rng.random() < 0.3:
+        # upgrade round trip in one process (shared -> exclusive -> back to shared, then stay), probes from another process
+        inner = {'sh': False, 'b': rng.random() < 0.7, 'r': True}
+        stay = {'sh': True, 'b': True, 'r': True}
+        a = [{'sh': True, 'b': True, 'r': True, 'body': [inner, stay] if rng.random() < 0.5 else [inner]}]
+        probes = [[{'sh': rng.random() < 0.7, 'b': rng.random() < 0.5, 'r': False}] for _ in range(rng.choice([1, 2]))]
+        k = rng.choice([20, 30, 40, 55])
+        spec = {'level': 'path', 'pof': [0] + [1] * len(probes), 'threads': [a] + probes,
+                'schedule': [0] * k + gen_schedule(rng, 1 + len(probes), 40)}
+        return spec
+    if level == 'path':
+        nprocs = rng.choice([1, 2])
+        spec['pof'] = [rng.randrange(nprocs) for _ in range(n)]
+        if nprocs == 2 and len(set(spec['pof'])) < 2:
+            spec['pof'][0] = 1 - spec['pof'][1]
+    return spec
+
+
+def flag_combos():
+    return [{'sh': sh, 'b': b, 'r': r} for sh in (True, False) for b in (True, False) for r in (True, False)]
+
+
+def exhaustive_bases(rng, tier):
+    """Programs whose schedules are enumerated exhaustively."""
+    combos = flag_combos()
+    bases = [{'level': 'thread', 'threads': [[dict(a)], [dict(b)]]} for a in combos for b in combos]       # 2 x 1: all 64
+    k = 6 if tier == 'quick' else 40
+    for _ in range(k):                                                                                       # 2 threads, 2+1 requests
+        a, b, c = (dict(rng.choice(combos)) for _ in range(3))
+        if rng.random() < 0.6:
+            first = [dict(a, body=[b])]
+        else:
+            first = [a, b]
+        bases.append({'level': 'thread', 'threads': [first, [c]]})
+    k3 = 0 if tier == 'quick' else 8
+    for _ in range(k3):                                                                                      # 3 x 1
+        bases.append({'level': 'thread', 'threads': [[dict(rng.choice(combos))] for _ in range(3)]})
+    return bases
+
+
 def run(ctx):
+    from harness.lib.core import JOBS
     ctx.build_gate(['C15'])
     ctx.trusted += [
         'harness/props/c15_vsched.py: virtual Lock/RLock/Condition/get_ident with the documented CPython semantics '
-        '(RLock ownership+depth, Condition.wait releases every level and restores it, notify_all moves all waiters), '
-        'one real OS thread per virtual thread, one atomic section granted at a time',
+        '(RLock ownership+depth, Condition.wait releases every level and restores it, notify_all moves all waiters), a virtual '
+        'kernel with the POSIX fcntl semantics lock.py relies on (one lock per process and file, compatibility with other '
+        'processes only, close drops the lock), one real OS thread per virtual thread, one atomic section granted at a time',
         'harness/props/c15.py: thread programs, label/observation export, classification',
+        'the virtual primitives and kernel are compared on every run with the real threading.Lock/RLock/Condition and the real '
+        'fcntl.lockf (fork) on schedule-independent scenarios (coverage.primitive_conformance / kernel_conformance)',
     ]
     ctx.assumptions += [
         'atomic-section granularity: code between two blocking primitives of lock.py runs without interleaving; '
         'sound because every shared variable is accessed only while the corresponding lock is held and release is not a blocking point',
-        'not covered: the OS scheduler and the kernel fcntl implementation themselves, fairness/starvation, the Windows msvcrt branch',
+        'processes are simulated by separate module instances of lock.py sharing one virtual kernel table (no real fork / real fcntl)',
+        'not covered: the OS scheduler and the kernel fcntl implementation themselves (incl. EDEADLK detection), fairness/starvation, '
+        'the Windows msvcrt branch, more than one path per thread (lock-ordering deadlocks are the caller\'s duty per the module docstring)',
+        'path level (PathModel.v): safety is proved for any number of processes/threads (path_excl_excludes, '
+        'path_body_holds_kernel_lock, pool_refcounts_exact, path_quiescent_empty, kernel_table_compatible) and no_lost_wakeup is '
+        'transferred (path_no_lost_wakeup); deadlock freedom of the whole path_lock with several processes is NOT proved: it is '
+        'checked on every executed schedule (a deadlock on a guard-true schedule is a VIOLATION)',
+        'one path per model instance: pool mutexes are never held across a blocking point, so requests on different paths interact '
+        'only through them; not exercised by the tie',
     ]
     ctx.coverage['source_sha'] = source_sha(vs.LOCK_PY)
-    machine = Machine()
-    finding_probes(ctx, machine)
+    jobs = max(1, min(JOBS, 8))
+    # the virtual primitives and the virtual kernel are compared with the real ones of this interpreter / OS
+    pd, preal = vs.primitive_conformance()
+    kd, kreal = vs.kernel_conformance(ctx.rundir)
+    ctx.coverage['primitive_conformance'] = {'differences': pd, 'real_threading': preal}
+    ctx.coverage['kernel_conformance'] = {'differences': kd, 'real_fcntl': kreal}
+    if pd or kd:
+        ctx.broken.append('virtual primitives / virtual kernel differ from threading / fcntl: ' + json.dumps((pd or kd)[0])[:600])
+    finding_probes(ctx)
+    quick = ctx.tier == 'quick'
     reg = sorted((VERIF / 'regress' / 'C15').glob('*.json'))
     specs = [json.loads(p.read_text()) for p in reg]
     specs = [s.get('spec', s) for s in specs]
-    n = 1500 if ctx.tier == 'quick' else 30000
-    specs += [gen_thread_spec(ctx.rng) for _ in range(n)]
-    verdicts, obss, stats = run_specs(ctx, specs, 'thread', machine)
-    ctx.coverage['evaluations'] = sum(len(o['steps']) for o in obss)
-    ctx.coverage['schedules'] = len(specs)
-    ctx.coverage['distinct_nontrivial'] = len({json.dumps([s['threads'], o['effective']]) for s, o in zip(specs, obss)
-                                               if len(s['threads']) >= 2})
-    ctx.coverage['rule'] = ('random programs of 1-3 threads x 1-3 nested/sequential requests with random '
-                            '(shared, blocking, reentrant) flags and random schedules from VERIF_SEED; non-trivial = at least '
-                            'two threads; distinct by (programs, effective schedule); evaluations = atomic sections compared')
+    nreg = len(specs)
+    nt, nc, npth, npc = (1000, 300, 300, 100) if quick else (16000, 5000, 4000, 1500)
+    specs += [gen_thread_spec(ctx.rng) for _ in range(nt)]
+    specs += [gen_contention_spec(ctx.rng, 'thread') for _ in range(nc)]
+    specs += [gen_path_spec(ctx.rng) for _ in range(npth)]
+    specs += [gen_contention_spec(ctx.rng, 'path') for _ in range(npc)]
+    k = max(1, len(specs) // (jobs * 4))
+    tasks = [('run', specs[i:i + k], None) for i in range(0, len(specs), k)]
+    bases = exhaustive_bases(ctx.rng, ctx.tier)
+    tasks += [('explore', b, None) for b in bases]
+    items = observe_tasks(tasks, jobs)
+    incomplete = [sp for sp, term, sm in items if sm.get('incomplete')]
+    items = [it for it in items if not it[2].get('incomplete')]
+    ctx.log(f'{len(items)} schedules executed on the real code ({len(bases)} programs enumerated exhaustively)')
+    verdicts, stats = judge(ctx, items, 'main')
+    sums = [sm for _, _, sm in items]
+    allspecs = [sp for sp, _, _ in items]
+    ctx.coverage['evaluations'] = sum(sm['nsteps'] for sm in sums)
+    ctx.coverage['schedules'] = len(items)
+    ctx.coverage['distinct_nontrivial'] = len({json.dumps([sp['threads'], sp.get('pof'), sm['effective']])
+                                               for sp, sm in zip(allspecs, sums) if len(sp['threads']) >= 2})
+    ctx.coverage['rule'] = (
+        'schedules of the real lock.py under the deterministic scheduler: regression corpus; random programs of 1-3 threads x 1-3 '
+        'nested/sequential requests with random (shared, blocking, reentrant) flags and random schedules; contention programs '
+        '(3-4 threads: holders, blocking exclusive waiters, late arrivals); the same at path level (path_lock, 1-2 processes, '
+        'virtual kernel); exhaustive enumeration of ALL schedules of small thread-level programs (all 64 flag combinations of '
+        '2 threads x 1 request, sampled 2+1 and 3x1 programs). Non-trivial = at least two threads; distinct by (programs, '
+        'process map, effective schedule); evaluations = atomic sections executed and compared')
     ctx.coverage['case_status'] = stats
-    obs_hist = {}
-    for o in obss:
-        for s in o['steps']:
-            k = s['obs'].strip('()')
-            obs_hist[k] = obs_hist.get(k, 0) + 1
+    kinds = {}
+    for sm in sums:
+        for k2, v in sm['kinds'].items():
+            kinds[k2] = kinds.get(k2, 0) + v
+    lvl = lambda sp: sp.get('level', 'thread')
     ctx.coverage['input_distribution'] = {
-        'threads_hist': {str(k): sum(1 for s in specs if len(s['threads']) == k) for k in (1, 2, 3)},
-        'requests_hist': {str(k): sum(1 for s in specs if sum(count_reqs(p) for p in s['threads']) == k) for k in range(1, 10)},
-        'step_kinds': obs_hist,
-        'final': {'all_finished': sum(1 for o in obss if o['final'] == 0), 'deadlock': sum(1 for o in obss if o['final'] == 1),
-                  'step_bound': sum(1 for o in obss if o['final'] == 2)},
+        'regression_specs': nreg,
+        'thread_level_schedules': sum(1 for sp in allspecs if lvl(sp) == 'thread'),
+        'path_level_schedules': sum(1 for sp in allspecs if lvl(sp) == 'path'),
+        'path_level_two_processes': sum(1 for sp in allspecs if lvl(sp) == 'path' and len(set(sp['pof'])) == 2),
+        'exhaustive_programs': len(bases), 'exhaustive_incomplete': len(incomplete),
+        'exhaustive_schedules': len(items) - len(specs),
+        'threads_hist': {str(k2): sum(1 for sp in allspecs if len(sp['threads']) == k2) for k2 in (1, 2, 3, 4)},
+        'step_kinds': kinds,
+        'final': {'all_finished': sum(1 for sm in sums if sm['final'] == 0), 'deadlock': sum(1 for sm in sums if sm['final'] == 1),
+                  'step_bound': sum(1 for sm in sums if sm['final'] == 2)},
         'guard_no_upgrade_false': sum(1 for v in verdicts if 201 in v),
         'lost_wakeup_deadlocks': sum(1 for v in verdicts if 21 in v),
         'circular_deadlocks': sum(1 for v in verdicts if 22 in v),
+        'max_steps_in_a_schedule': max(sm['nsteps'] for sm in sums),
     }
-    ctx.coverage['samples'] = [{'spec': s, 'tags': v, 'effective_schedule': o['effective']}
-                               for s, v, o in list(zip(specs, verdicts, obss))[:4]]
+    if incomplete:
+        ctx.notes.append(f'{len(incomplete)} exhaustive enumerations hit the schedule limit and are partial')
+    ctx.coverage['samples'] = [{'spec': sp, 'tags': v, 'effective_schedule': sm['effective']}
+                               for sp, v, sm in list(zip(allspecs, verdicts, sums))[nreg:nreg + 2]]
+    ctx.coverage['samples'] += [{'spec': sp, 'tags': v, 'effective_schedule': sm['effective']}
+                                for sp, v, sm in zip(allspecs, verdicts, sums) if lvl(sp) == 'path'][:2]
 
 
 def replay(ctx, rep):
@@ -350,5 +844,8 @@ def replay(ctx, rep):
     print('spec', json.dumps(spec))
     print('effective schedule', obss[0]['effective'], 'final', obss[0]['final'], 'crashes', obss[0]['crashes'])
     print('tags', tags, [TAGS.get(t, t) for t in tags])
-    bad = [t for t in tags if t in CORR or t in ORACLE]
+    excused = [t for t in tags if t in EXCUSED and 201 in tags and not (set(tags) & set(CORR))]
+    bad = [t for t in tags if (t in CORR or t in ORACLE) and t not in excused]
+    if 201 in tags and not [t for t in tags if t in ORACLE]:
+        bad = []
     return 1 if bad else 0
